@@ -559,6 +559,8 @@ def run(ctx) -> None:
     ctx.rule("C11.roundtrip", "finite evaluation: model_from_dict(model_to_dict(m)) says what m said; the dict is JSON-representable, not consumed, reproduced by a second trip", floor=1)
     n0, d0 = len(ctx.findings), len(ctx.deferred)
     ctx.guard(ioform.check_roundtrip, ctx, "C11.roundtrip")
+    ctx.rule("C11.construct", "finite evaluation: the Reaction constructor the readers start from succeeds under every admissible configuration of the default bounds", floor=1)
+    ctx.guard(ioform.check_construct, ctx, "C11.construct")
     roundtrip_failed = len(ctx.findings) > n0 or len(ctx.deferred) > d0
     # The structural reading of the key tables, of the bounds handling and of the defaults explains what the evaluated
     # round trip decides: its reports are issued when the round trip is found wrong as well (or could not be
